@@ -16,14 +16,29 @@
    1, 2, 3, 4, 5, 6, 7 and (locally) 9; expressions: everything incl. (NOT) EXISTS
    over a pattern of the fragment, errors allowed, the four comparisons between
    variables and constants as long as no compared variable can hold a boolean
-   made by BIND (C04_pushdown, C04_expressions; typing invariant bu_typed),
-   and the tie theorem on that fragment for SELECT / SELECT DISTINCT / ASK /
+   made by BIND (C04_pushdown_partial, C04_expressions_partial; typing invariant bu_typed),
+   all of it for DATA THAT HOLD LITERALS OF ONE KIND ONLY: the hypotheses [ds_nb ds],
+   [gok g] and [case_wf c] say "no xsd:boolean literal in any graph, graph name" (next
+   to sets of triples and distinct graph names, which are representation
+   invariants).  That hypothesis is not a technicality: it is the complement of the
+   data half of the region of finding F-C04-9 (a comparison meeting literals of
+   two kinds: rdflib answers false / true / an order where 17.3 raises a type
+   error; witness w9, trigger [has_cmp && second_kind]).  With a boolean literal
+   in the data and a comparison in the query the statement kf c = 0 -> spec_ok
+   is not claimed, the trigger 9 fires; with a boolean in the data and no risky
+   comparison the agreement is supported by the runs only.  Then
+   the tie theorem on that fragment for SELECT / SELECT DISTINCT / ASK /
    CONSTRUCT (C04_spec_ok_model_partial).  Not covered by a proof: sub-SELECT in
    other positions under pushed bindings (OPTIONAL { SELECT }, hash joins inside
    OPTIONAL / EXISTS), DISTINCT under pushed bindings, comparisons of compound
-   operands; there the agreement outside the trigger regions is supported by the
-   correspondence runs only (on the generated traffic the proved fragment is
-   98 % of the untriggered region). *)
+   operands, data with literals of two kinds; there the agreement outside the
+   trigger regions is supported by the correspondence runs only (suite
+   fragment_share measures the share of generated cases inside the proved
+   fragment).
+   EXISTS in the specification does not read rdflib's no_isolated_scope
+   annotation: a filter at the top of an EXISTS pattern always sees the current
+   solution (18.6 substitution, one level); the fragment demands that rdflib set
+   the flag there, a top filter without it is trigger 7. *)
 From RV Require Import Sparql.Tie.
 
 (* the top-down BGP evaluation under ANY context, for ANY order of the triple
@@ -82,13 +97,14 @@ Theorem C04_join_hash_set : forall L, NoDup L -> dedup L = L.
 Proof. exact dedup_NoDup. Qed.
 Print Assumptions C04_join_hash_set.
 
-(* the syntactic duplicate-freeness analysis behind the trigger of F-C04-3 is sound *)
-Theorem C04_df_sound : forall ds p, shape p = true -> df p = true -> graphs_nodup ds ->
+(* the syntactic duplicate-freeness analysis behind the trigger of F-C04-3 is sound
+   (_partial: for VALUES tables in canonical form, [shape]) *)
+Theorem C04_df_sound_partial : forall ds p, shape p = true -> df p = true -> graphs_nodup ds ->
   forall g, NoDup g -> NoDup (eval_bu ds g p).
 Proof. exact df_sound. Qed.
-Print Assumptions C04_df_sound.
+Print Assumptions C04_df_sound_partial.
 
-(* C04_pushdown: on the fragment [frag] -
+(* C04_pushdown_partial: on the fragment [frag] -
      BGP; Union; Values; Graph (IRI or variable);
      Join: lazy, or hash when [hash_ok] (= negation of the trigger of F-C04-3);
        the right operand of a lazy join may be a sub-SELECT whose projection keeps
@@ -105,29 +121,33 @@ Print Assumptions C04_df_sound.
        boolean of the pattern at hand: the local negation of F-C04-9; (NOT) EXISTS
        over a pattern of the fragment; errors allowed) and [vis_ok] (= neg. of F-C04-7) -
    for EVERY incoming context whose variables are among [pushed]:
-   top-down = bottom-up restricted to the context *)
-Theorem C04_pushdown : forall ds, graphs_nodup ds -> ds_nb ds ->
+   top-down = bottom-up restricted to the context.
+   _partial: only on [frag], and only over data without boolean literals
+   ([ds_nb], [gok]: the complement of the data half of F-C04-9's region) *)
+Theorem C04_pushdown_partial : forall ds, graphs_nodup ds -> ds_nb ds ->
   forall p pushed, frag (map fst (ds_named ds)) pushed p = true ->
   forall g c, gok g -> sol_wf c = true -> dom_in c pushed ->
   Permutation (eval_td ds g c p) (join_ctx c (eval_bu ds g p)).
 Proof. exact pushdown. Qed.
-Print Assumptions C04_pushdown.
+Print Assumptions C04_pushdown_partial.
 
-(* the two expression evaluators agree (proved together with C04_pushdown by
+(* the two expression evaluators agree (proved together with C04_pushdown_partial by
    mutual induction): for every expression of [efrag], incl. EXISTS / NOT EXISTS
    whose pattern rdflib evaluates under the visible solution, whenever the two
    solutions agree on the variables the expression mentions *)
-Theorem C04_expressions : forall ds, graphs_nodup ds -> ds_nb ds ->
+Theorem C04_expressions_partial : forall ds, graphs_nodup ds -> ds_nb ds ->
   forall e pushed, efrag (map fst (ds_named ds)) pushed e = true ->
   forall g m1 full m2, gok g -> sol_wf m1 = true -> sol_wf m2 = true -> dom_in m1 pushed ->
   (forall v, In v (evars e) -> lookup v m1 = lookup v m2) ->
   (forall v t, In v (cmp_vars_e e) -> lookup v m2 = Some t -> nb t = true) ->
   expr_td ds g m1 full e = expr_bu ds g m2 e.
 Proof. exact expr_agree. Qed.
-Print Assumptions C04_expressions.
+Print Assumptions C04_expressions_partial.
 
 (* the tie theorem on that fragment (SELECT, SELECT DISTINCT, ASK, CONSTRUCT):
-   the checker accepts the model's observation *)
+   the checker accepts the model's observation.  [case_wf]: graphs are sets, graph
+   names distinct, and NO BOOLEAN LITERAL IN THE DATA (outside the data half of
+   F-C04-9's region) *)
 Theorem C04_spec_ok_model_partial : forall c,
   case_wf c = true -> in_frag c = true -> spec_ok c (model_obs c) = true.
 Proof. exact spec_ok_model_frag. Qed.
@@ -150,9 +170,10 @@ Theorem C04_spec_construct : forall c tpl g,
 Proof. exact spec_ok_construct. Qed.
 Print Assumptions C04_spec_construct.
 
-(* the full statement fails: six of the findings with closed witnesses (each is
+(* the full statement fails: all eight open findings with closed witnesses (each is
    replayed on rdflib by the corpus) *)
-Theorem C04_refuted : refuted w1 /\ refuted w2 /\ refuted w3 /\ refuted w4 /\ refuted w6 /\ refuted w7.
+Theorem C04_refuted :
+  refuted w1 /\ refuted w2 /\ refuted w3 /\ refuted w4 /\ refuted w5 /\ refuted w6 /\ refuted w7 /\ refuted w9.
 Proof. exact findings_refuted. Qed.
 Print Assumptions C04_refuted.
 
